@@ -108,7 +108,7 @@ def tblToJson : Option Tbl → Json
 def dbOfJson (j : Json) : Db := { orig := tblOfJson (getObj j "orig"), tmp := tblOfJson (getObj j "tmp") }
 def dbToJson (d : Db) : Json := obj [("orig", tblToJson d.orig), ("tmp", tblToJson d.tmp)]
 
-def opOfJson (j : Json) : Option BatchOp :=
+def opOfJson1 (j : Json) : Option BatchOp :=
   match getStrD j "op" with
   | "add_column" => some (.addColumn (colOfJson (getObj j "col")) (optStr j "before") (optStr j "after") (getBoolD j "clause"))
   | "drop_column" => some (.dropColumn (getStrD j "name"))
@@ -130,6 +130,30 @@ def opOfJson (j : Json) : Option BatchOp :=
   | "create_index" => some (.createIndex (indexOfJson j))
   | "drop_index" => some (.dropIndex (getStrD j "name"))
   | _ => none
+
+/-- an `existing_type_const` on alter_column / drop_column becomes the marker op in front of it -/
+def opOfJson (j : Json) : Option (List BatchOp) :=
+  match opOfJson1 j with
+  | none => none
+  | some o =>
+    match getStr j "existing_type_const" with
+    | none => some [o]
+    | some n =>
+      let renames := match getStr j "new_name" with
+        | some nn => nn != getStrD j "name"
+        | none => false
+      let retypes := match getObj j "type" with
+        | .null => false
+        | _ => true
+      some [.existingTypeConst n renames retypes (getStrD j "op" == "drop_column"), o]
+
+def opsOfJson (j : Json) : Option (List BatchOp) := ((getArr j "ops").mapM opOfJson).map List.flatten
+
+def modeOfJson (j : Json) : ConnMode :=
+  match getStrD j "mode" with
+  | "autocommit" => .autocommit
+  | "begin" => .explicitBegin
+  | _ => .pysqliteLegacy
 
 def convOfJson (j : Json) : ConvTable :=
   (getArr j "convs").map (fun e => (getStrD e "ty", getBoolD e "cast", valueOfJson (getObj e "v"), valueOfJson (getObj e "out")))
@@ -161,15 +185,15 @@ def handle (op : String) (j : Json) : Option Json :=
   match op with
   | "noop" => some (obj [])
   | "batch.run" =>
-    match (getArr j "ops").mapM opOfJson with
+    match opsOfJson j with
     | none => some (errJ "bad-op")
     | some ops =>
       let out := runBatch (convOfJson j) (getStrD j "table") (getBoolD j "reflected" true) (getBoolD j "always" true) ops
-        (getNat j "fault") (getBoolD j "commitOnError") (dbOfJson (getObj j "db"))
+        (getNat j "fault") (getBoolD j "commitOnError") (dbOfJson (getObj j "db")) (modeOfJson j) (getBoolD j "tddl")
       some (obj [("recreated", Json.bool out.recreated), ("stmts", strs (out.trace.map stmtTok)),
                  ("outcome", errJson out.err), ("final", dbToJson out.final)])
   | "batch.spec10" =>
-    match (getArr j "ops").mapM opOfJson with
+    match opsOfJson j with
     | none => some (errJ "bad-op")
     | some ops =>
       match tblOfJson (getObj j "before"), tblOfJson (getObj j "after") with
@@ -178,7 +202,7 @@ def handle (op : String) (j : Json) : Option Json :=
         some (obj [("holds", Json.bool r.isEmpty), ("why", strs r)])
       | _, _ => some (obj [("holds", Json.bool false), ("why", strs ["schema: table missing after the batch"])])
   | "batch.spec11" =>
-    match (getArr j "ops").mapM opOfJson with
+    match opsOfJson j with
     | none => some (errJ "bad-op")
     | some ops =>
       match tblOfJson (getObj j "before") with
